@@ -116,6 +116,8 @@ def _rep(a, b):
 
 
 WITNESSES = [
+    ("encoded plate names kept on the screen", "batchie.data",
+     _rep("    def set_observed(self, selection_mask: ArrayType, observations: ArrayType):", "    def _encoded_plate_names(self):\n        if getattr(self, \"_enc_plates\", None) is None:\n            self._enc_plates = np.char.encode(self.plate_names)\n        return self._enc_plates\n\n    def set_observed(self, selection_mask: ArrayType, observations: ArrayType):"), ["R7"]),
     ("load_h5 drops treatment_mapping", "batchie.data",
      _rep("                treatment_mapping=(\n                    np.char.decode(f[\"treatment_mapping_names\"][:], \"utf-8\"),\n                    f[\"treatment_mapping_doses\"][:],\n                    f[\"treatment_mapping_ids\"][:],\n                ),\n", ""), ["R1"]),
     ("observations saved as float32", "batchie.data",
